@@ -184,11 +184,11 @@ theorem survives_within_budget (start : Nat) : ∀ (evs : List Ev) (a : SyncAsm)
           split
           · split
             · right; rfl
-            · left; simp [hl]
+            · left; simp
           · split
             · rename_i hz
               have : a.retries ≠ 0 := by simp only [evCost, hz, if_true] at hc'; omega
-              simp only [this, if_false]; left; simp [hl]
+              simp only [this, if_false]; left; simp
             · left; exact hl
       · have hl' : a.live = false := by simpa using hl
         rw [SyncAsm.step_dead a start e hl']; exact h
@@ -251,19 +251,19 @@ theorem stage_version (cli : Block) (budget start : Nat) : ∀ (pre : List HEv) 
       rw [hstep, ih]
       have e1 : h.retries - 1 - rest.count .timeout = h.retries - (rest.count .timeout + 1) := by omega
       have e2 : h.sendsV + 1 + rest.count .timeout = h.sendsV + (rest.count .timeout + 1) := by omega
-      simp [List.count_cons, e1, e2]
+      simp [e1, e2]
     | chcur =>
       have hstep : h.step cli budget start .chcur = h := by unfold HS.step; simp [hs]
       rw [hstep, stage_version cli budget start rest h hs hn' (by simpa [List.count_cons] using hc)]
-      simp [List.count_cons]
+      simp
     | files =>
       have hstep : h.step cli budget start .files = h := by unfold HS.step; simp [hs]
       rw [hstep, stage_version cli budget start rest h hs hn' (by simpa [List.count_cons] using hc)]
-      simp [List.count_cons]
+      simp
     | seg s =>
       have hstep : h.step cli budget start (.seg s) = h := by unfold HS.step; simp [hs]
       rw [hstep, stage_version cli budget start rest h hs hn' (by simpa [List.count_cons] using hc)]
-      simp [List.count_cons]
+      simp
 
 theorem stage_channel (cli : Block) (budget start : Nat) : ∀ (pre : List HEv) (h : HS), h.stage = .channel →
     HEv.chcur ∉ pre → pre.count .timeout ≤ h.retries →
@@ -283,19 +283,19 @@ theorem stage_channel (cli : Block) (budget start : Nat) : ∀ (pre : List HEv) 
       rw [hstep, ih]
       have e1 : h.retries - 1 - rest.count .timeout = h.retries - (rest.count .timeout + 1) := by omega
       have e2 : h.sendsC + 1 + rest.count .timeout = h.sendsC + (rest.count .timeout + 1) := by omega
-      simp [List.count_cons, e1, e2]
+      simp [e1, e2]
     | svers =>
       have hstep : h.step cli budget start .svers = h := by unfold HS.step; simp [hs]
       rw [hstep, stage_channel cli budget start rest h hs hn' (by simpa [List.count_cons] using hc)]
-      simp [List.count_cons]
+      simp
     | files =>
       have hstep : h.step cli budget start .files = h := by unfold HS.step; simp [hs]
       rw [hstep, stage_channel cli budget start rest h hs hn' (by simpa [List.count_cons] using hc)]
-      simp [List.count_cons]
+      simp
     | seg s =>
       have hstep : h.step cli budget start (.seg s) = h := by unfold HS.step; simp [hs]
       rw [hstep, stage_channel cli budget start rest h hs hn' (by simpa [List.count_cons] using hc)]
-      simp [List.count_cons]
+      simp
 
 theorem stage_config (cli : Block) (budget start : Nat) : ∀ (pre : List HEv) (h : HS), h.stage = .config →
     HEv.files ∉ pre → pre.count .timeout ≤ h.retries →
@@ -315,19 +315,44 @@ theorem stage_config (cli : Block) (budget start : Nat) : ∀ (pre : List HEv) (
       rw [hstep, ih]
       have e1 : h.retries - 1 - rest.count .timeout = h.retries - (rest.count .timeout + 1) := by omega
       have e2 : h.sendsF + 1 + rest.count .timeout = h.sendsF + (rest.count .timeout + 1) := by omega
-      simp [List.count_cons, e1, e2]
+      simp [e1, e2]
     | svers =>
       have hstep : h.step cli budget start .svers = h := by unfold HS.step; simp [hs]
       rw [hstep, stage_config cli budget start rest h hs hn' (by simpa [List.count_cons] using hc)]
-      simp [List.count_cons]
+      simp
     | chcur =>
       have hstep : h.step cli budget start .chcur = h := by unfold HS.step; simp [hs]
       rw [hstep, stage_config cli budget start rest h hs hn' (by simpa [List.count_cons] using hc)]
-      simp [List.count_cons]
+      simp
     | seg s =>
       have hstep : h.step cli budget start (.seg s) = h := by unfold HS.step; simp [hs]
       rw [hstep, stage_config cli budget start rest h hs hn' (by simpa [List.count_cons] using hc)]
-      simp [List.count_cons]
+      simp
+
+theorem pass_version (cli : Block) (budget start : Nat) (pre : List HEv) (h : HS) (hs : h.stage = .version)
+    (hn : HEv.svers ∉ pre) (hc : pre.count .timeout ≤ h.retries) :
+    h.run cli budget start (pre ++ [.svers]) =
+      { stage := .channel, retries := budget, sendsV := h.sendsV + pre.count .timeout, sendsC := 1, sendsF := h.sendsF, asm := h.asm } := by
+  rw [HS.run_append, stage_version cli budget start pre h hs hn hc, HS.run_cons]
+  unfold HS.step
+  simp [hs, HS.run]
+
+theorem pass_channel (cli : Block) (budget start : Nat) (pre : List HEv) (h : HS) (hs : h.stage = .channel)
+    (hn : HEv.chcur ∉ pre) (hc : pre.count .timeout ≤ h.retries) :
+    h.run cli budget start (pre ++ [.chcur]) =
+      { stage := .config, retries := budget, sendsV := h.sendsV, sendsC := h.sendsC + pre.count .timeout, sendsF := 1, asm := h.asm } := by
+  rw [HS.run_append, stage_channel cli budget start pre h hs hn hc, HS.run_cons]
+  unfold HS.step
+  simp [hs, HS.run]
+
+theorem pass_config (cli : Block) (budget start : Nat) (pre : List HEv) (h : HS) (hs : h.stage = .config)
+    (hn : HEv.files ∉ pre) (hc : pre.count .timeout ≤ h.retries) :
+    h.run cli budget start (pre ++ [.files]) =
+      { stage := .block, retries := h.retries - pre.count .timeout, sendsV := h.sendsV, sendsC := h.sendsC,
+        sendsF := h.sendsF + pre.count .timeout, asm := SyncAsm.start cli budget } := by
+  rw [HS.run_append, stage_config cli budget start pre h hs hn hc, HS.run_cons]
+  unfold HS.step
+  simp [hs, HS.run]
 
 /-- what the stage field must be for an assembler state -/
 def stageOf (a : SyncAsm) : Stage := if a.installed then .connected else if !a.live then .stalled else .block
@@ -351,19 +376,19 @@ theorem stage_block (cli : Block) (budget start : Nat) : ∀ (evs : List Ev) (h 
         | timeout =>
           unfold HS.step; simp only [hb, liftEv, stageOf]
           split
-          · rename_i hi; simp [hi]
+          · rename_i hi; simp
           · rename_i hi
             split
-            · rename_i hl; simp [hi, hl]
-            · rename_i hl; simp [hi, hl]
+            · rename_i hl; simp
+            · rename_i hl; simp
         | seg s =>
           unfold HS.step; simp only [hb, liftEv, stageOf]
           split
-          · rename_i hi; simp [hi]
+          · rename_i hi; simp
           · rename_i hi
             split
-            · rename_i hl; simp [hi, hl]
-            · rename_i hl; simp [hi, hl]
+            · rename_i hl; simp
+            · rename_i hl; simp
       · -- connected: installed, handler gone, every later event is a no-op on both sides
         have hi : h.asm.installed = true := by
           cases hi : h.asm.installed with
